@@ -24,7 +24,7 @@ package preparedmessages
 //@   ensures [C09.complete.a-stored-certificate-that-reaches-quorum-is-extracted] ppStored[latestPreparedView] && len(PIds(storage, pver, blockHeight, latestPreparedView, ppHash[latestPreparedView])) >= 1
 //@     | && (forall cids []primitives.MemberId :: len(cids) == len(PIds(storage, pver, blockHeight, latestPreparedView, ppHash[latestPreparedView])) + 1
 //@     |      && (forall ck :: 0 <= ck && ck < len(cids) - 1 ==> cids[ck] == PIds(storage, pver, blockHeight, latestPreparedView, ppHash[latestPreparedView])[ck])
-//@     |      && cids[len(cids) - 1] == PPAt(storage, blockHeight, latestPreparedView).content.Sender().MemberId()
+//@     |      && cids[len(cids) - 1] == PPSender(storage, blockHeight, latestPreparedView)
 //@     |      ==> SW(cids, committeeMembers, len(committeeMembers)) >= Qz(SumMW(committeeMembers, len(committeeMembers))))
 //@     | ==> result != nil
 //@   must_fail [C09.complete.vacuity] !(ppStored[latestPreparedView] && len(PIds(storage, pver, blockHeight, latestPreparedView, ppHash[latestPreparedView])) >= 1)
